@@ -377,7 +377,7 @@ class GpRegressor:
 
             # calculate the mean and covariance
             mean = A @ (K_qx * self.alpha).T
-            covariance = R - (Q.T @ Q)
+            covariance = diag(R) - (Q.T @ Q)
 
             # store the results for the current point
             mu_q.append(mean)
